@@ -131,7 +131,7 @@ def run(ctx):
         sbatches.append(out)
     parts = []
     for b in sbatches:
-        lines = open(b).read().splitlines()
+        lines = nl_lines(b)
         os.remove(b)
         for j in range(4):
             sub = lines[j::4]
